@@ -513,6 +513,7 @@ def derive(recs):
                 endbit[nb] = r.pbit
         prev = r
     prev = init
+    last_base = 0           # the model's ghost x_next: base of the block confirmed last (0 initially)
     nxt_of_thread = {}
     last = {}
     for idx in range(len(recs) - 1, -1, -1):
@@ -561,6 +562,13 @@ def derive(recs):
                         t, r.stale_pbit, r.poffs, g, t, r.stale_pbit, r.poffs + 1, g, exp))
                 elif len(r.order) > len(prev.order):
                     b = r.order[-1][0]
+                    # hypothesis [ev_prog] of the ownership/liveness theorems (SchedX/XOwn.v: preach): a confirmed block starts
+                    # >= 32 bits after the block confirmed before it (a header is 80 bits; the last parse() call of a header
+                    # that straddles input blocks may consume fewer than 32 bits, so the reference is the previous base)
+                    if last_base is not None and b < last_base + 32:
+                        cmds.append("ANOM parse OK at bit %d, less than 32 bits after the block confirmed before it (bit %d): "
+                                    "hypothesis ev_prog of C11x_capacity/C11x_progress violated" % (b, last_base))
+                    last_base = b
                     cmds.append("P1 %d K %d %d 9 0 || %s" % (t, b, (b + 31) // 32, exp))
                 else:
                     cmds.append("P1 %d M %d %d || %s" % (t, r.pbit, r.poffs, exp))
@@ -1063,7 +1071,32 @@ def direct_x(check, leaks=False):
     return viols
 
 
+REFUTATIONS = (
+    ("XF4Refuted", "the regenerated model reaches a retrieve job below head_offs and attaches outside the live input (finding F4)"),
+    ("XF8Refuted", "the regenerated model exhibits the deadlock with a rejected candidate at the minimum of emit_q (finding F8: "
+                   "C11x_progress_refuted)"),
+    ("XF9Refuted", "the regenerated model exhibits the unord_q overflow (finding F9: C11x_unord_capacity_refuted, 32 overtaken "
+                   "candidates in a queue of capacity 31; C13x_unord_count_refuted)"),
+)
+
+
+def model_refutations(check):
+    """When a proof or the translator is broken: which of the recorded refutation witnesses (notes/*_before_fix.v)
+    compile against the regenerated Gen/ of the current tree, i.e. which known defect the current source exhibits."""
+    hits = []
+    for name, what in REFUTATIONS:
+        try:
+            if model_exhibits(name):
+                hits.append(name)
+                check.notes.append("notes/%s_before_fix.v compiles against the regenerated Gen/: %s" % (name, what))
+        except Exception as e:          # a refutation build must never mask the broken obligation
+            check.notes.append("refutation build %s failed: %s" % (name, repr(e)[:200]))
+    return hits
+
+
 def search_x(check):
+    if any(b.kind in ("proof", "translator") for b in check.broken):
+        model_refutations(check)
     return hunt_f4(check, tries=120 if check.tier == "quick" else 400) + hunt_f3(check, runs=30 if check.tier == "quick" else 100)
 
 
